@@ -10,6 +10,7 @@ import Prov.XmlSpec
 import Prov.ProvN
 import Prov.ProvNSpec
 import Prov.Graph
+import Prov.Dot
 
 open Lean
 namespace Driver
